@@ -38,6 +38,7 @@ enum K {
     BoxU32,
     Tok,
     Tok4,
+    ZTok,
 }
 
 impl K {
@@ -57,6 +58,7 @@ impl K {
             K::BoxU32 => "Box<u32>",
             K::Tok => "crate::support::Tok",
             K::Tok4 => "crate::support::Tok4",
+            K::ZTok => "crate::support::ZTok",
         }
     }
     fn size_align(self) -> (usize, usize) {
@@ -69,7 +71,7 @@ impl K {
             K::A3 => (3, 1),
             K::S12 => (12, 4),
             K::S24 => (24, 8),
-            K::Unit | K::Zst => (0, 1),
+            K::Unit | K::Zst | K::ZTok => (0, 1),
             K::A16 => (16, 16),
             K::BoxU32 => (8, 8),
             K::Tok => (2, 1),
@@ -77,7 +79,7 @@ impl K {
         }
     }
     fn copy(self) -> bool {
-        !matches!(self, K::BoxU32 | K::Tok | K::Tok4)
+        !matches!(self, K::BoxU32 | K::Tok | K::Tok4 | K::ZTok)
     }
     fn token(self) -> bool {
         matches!(self, K::Tok | K::Tok4)
@@ -160,6 +162,18 @@ fn corpus() -> Vec<ModuleDef> {
                 Add("p", U64, true), Add("q", U16, true), Close(S::Simple),
             ],
         },
+        // a wide removed field whose bytes are taken over by two narrower added fields, twice;
+        // a droppable zero-size field removed by a conversion
+        ModuleDef {
+            name: "m_split",
+            clone: true,
+            tier: "quick",
+            ops: vec![
+                Add("wide", U64, false), Add("keep", U32, false), Add("zt", ZTok, false), Add("t", Tok, false), Close(S::Simple),
+                Remove("wide"), Add("lo", U32, false), Add("hi", U32, true), Close(S::Simple),
+                Remove("lo"), Remove("zt"), Remove("t"), Add("p", U16, false), Add("q", U16, true), Add("z2", ZTok, false), Close(S::Simple),
+            ],
+        },
         // four variants, strategy mixture, u128, gaps refilled
         ModuleDef {
             name: "m_mixture",
@@ -184,6 +198,62 @@ fn corpus() -> Vec<ModuleDef> {
             ],
         },
     ]
+}
+
+struct Rng(u64);
+impl Rng {
+    fn next(&mut self) -> u64 {
+        // xorshift64*
+        self.0 ^= self.0 >> 12;
+        self.0 ^= self.0 << 25;
+        self.0 ^= self.0 >> 27;
+        self.0.wrapping_mul(0x2545F4914F6CDD1D)
+    }
+    fn below(&mut self, n: u64) -> u64 {
+        self.next() % n
+    }
+}
+
+/// a random definition history: 2-4 variants, 1-3 additions and 0-2 removals per variant, any
+/// strategy per variant, at most two drop-counted fields (ghost counters are a fixed array)
+fn random_module(index: usize, seed: u64) -> ModuleDef {
+    let mut rng = Rng(seed.wrapping_mul(0x9E3779B97F4A7C15).wrapping_add(index as u64 * 7919 + 1) | 1);
+    for _ in 0..4 {
+        rng.next();
+    }
+    let kinds = [K::U8, K::U16, K::U32, K::U64, K::U128, K::A3, K::S12, K::S24, K::Unit, K::Zst, K::A16, K::BoxU32, K::Tok, K::Tok4, K::ZTok];
+    let mut ops = Vec::new();
+    let mut live: Vec<&'static str> = Vec::new();
+    let mut counter = 0;
+    let mut tokens = 0;
+    let nvariants = 2 + rng.below(3) as usize;
+    for v in 0..nvariants {
+        if v > 0 {
+            let nrm = rng.below(3) as usize;
+            for _ in 0..nrm.min(live.len()) {
+                let i = rng.below(live.len() as u64) as usize;
+                ops.push(Op::Remove(live.remove(i)));
+            }
+        }
+        let nadd = 1 + rng.below(3) as usize;
+        for _ in 0..nadd {
+            let mut k = kinds[rng.below(kinds.len() as u64) as usize];
+            if k.token() {
+                if tokens >= 2 {
+                    k = K::U32;
+                } else {
+                    tokens += 1;
+                }
+            }
+            let name: &'static str = Box::leak(format!("f{}", counter).into_boxed_str());
+            counter += 1;
+            let uninit = k.copy() && rng.below(2) == 0;
+            ops.push(Op::Add(name, k, uninit));
+            live.push(name);
+        }
+        ops.push(Op::Close(match rng.below(4) { 0 => S::Simple, 1 => S::Basic, 2 => S::Append, _ => S::AppendRev }));
+    }
+    ModuleDef { name: Box::leak(format!("r{}_{}", seed, index).into_boxed_str()), ops, clone: rng.below(2) == 0, tier: "random" }
 }
 
 fn build(def: &ModuleDef) -> (RecordDefinition<NativeDatumDetails>, BTreeMap<String, (K, bool, DatumId)>) {
@@ -513,7 +583,15 @@ fn main() {
     let dump = env::var("GK_DUMP_DIR").ok().map(PathBuf::from);
     let mut lib = String::new();
     let mut table = Vec::new();
-    for m in corpus() {
+    let seed: u64 = env::var("GK_SEED").ok().and_then(|s| s.parse().ok()).unwrap_or(0);
+    let nrandom: usize = env::var("GK_RANDOM").ok().and_then(|s| s.parse().ok()).unwrap_or(if tier == "thorough" { 12 } else { 2 });
+    println!("cargo:rerun-if-env-changed=GK_SEED");
+    println!("cargo:rerun-if-env-changed=GK_RANDOM");
+    let mut modules = corpus();
+    for i in 0..nrandom {
+        modules.push(random_module(i, seed));
+    }
+    for m in modules {
         if m.tier == "thorough" && tier != "thorough" {
             continue;
         }
